@@ -1,5 +1,6 @@
 import Abmarl.Lemmas.ReachAttacks
 import Abmarl.Lemmas.ExamplesNoRaise
+import Abmarl.Lemmas.ReachHeal
 /-!
 # `ReachTheTargetSim.step` does not raise for in-space actions (steps that start in a `WInv` world)
 
@@ -127,6 +128,79 @@ theorem stepPS_ok_WInv {cfg : Cfg} {w0 : World} (hcfg : CfgOK w0) (p : PS) (acts
   obtain ⟨p3, h3, _⟩ := foldE_ok (entropy1 cfg) (PSW cfg w0) (ItemOK cfg.toEx w0)
     (fun p x hP hx => entropy1_ok p x hP hx.lt hx.learning) acts p2 hP2 hS
   exact ⟨p3, h3⟩
+
+/-! ## … and when it starts in a world that is only `WInvWeak` (every reachable state) -/
+
+/-- one pass of the attack loop in a `WInvWeak` world: the actor returns (`processAttack_ok_weak`: transport of
+`attackOK_all` through `RT.heal`), the ledger has the entries that are charged, `WInvWeak` is kept -/
+theorem attack1_ok_weak {cfg : Cfg} {w0 : World} (p : PS) (x : Aid × Act) (hP : PSW cfg w0 p)
+    (hx : ItemOK cfg.toEx w0 x) : ∃ p', attack1 cfg p x = .ok p' ∧ PSW cfg w0 p' := by
+  have hn : p.w.n = w0.n := sframe_n hP.frame
+  have hlt : x.1 < p.w.n := by rw [hn]; exact hx.lt
+  suffices h : ∃ p', attack1 cfg p x = .ok p' ∧ LedgerFull cfg.toEx w0.n p'.r by
+    obtain ⟨p', h1, h2⟩ := h
+    have hw := attack1_weak (compsKeepWeak cfg.attack) (w0 := w0) ⟨hP.weak, hP.frame⟩ h1
+    exact ⟨p', h1, ⟨hw.1, hw.2, h2⟩⟩
+  rw [attack1_eq]
+  unfold Ex.attack1
+  rw [if_neg (Nat.not_le.mpr hlt)]
+  by_cases hact : (p.w.stOf x.1).active = true
+  · rw [if_pos hact]
+    obtain ⟨st, H, w', t', hp, hH⟩ := processAttack_ok_weak (cfg := cfg.attack) (act := x.2.attack) p.t hP.weak hlt hact
+      (fun hatt => by
+        rw [inSpace_attack_sframe hP.frame]
+        exact hx.attack (Or.inl rfl) (by rw [← sframe_cfgOf hP.frame]; exact hatt))
+    have hp' : processAttack cfg.toEx.attack p.w x.1 x.2.attack p.t = .ok ((st, H), w', t') := hp
+    simp only [hp']
+    by_cases hst : st = true
+    · simp only [hst, if_true]
+      by_cases hemp : H.isEmpty = true
+      · rw [if_pos hemp]
+        obtain ⟨r', h1, hf⟩ := accrue_ok hP.full hx.lt hx.learning (-10)
+        exact ⟨⟨w', r', t'⟩, by simp [h1, Except.map], hf⟩
+      · rw [if_neg hemp]
+        obtain ⟨r', h1, hf⟩ := foldE_ok
+          (if cfg.toEx.which == .predatorPrey then preyKill cfg.toEx w' x.1 else teamKill cfg.toEx w' x.1)
+          (LedgerFull cfg.toEx w0.n) (fun v => v < w0.n)
+          (fun r v hr hv => kill_ok w' x.1 hx.lt hx.learning r v hr hv) H p.r hP.full
+          (fun v hv => by rw [← hn]; exact hH v hv)
+        exact ⟨⟨w', r', t'⟩, by simp only [h1, Except.map], hf⟩
+    · simp only [hst, Bool.false_eq_true, if_false]
+      exact ⟨⟨w', p.r, t'⟩, rfl, hP.full⟩
+  · rw [if_neg hact]
+    exact ⟨p, rfl, hP.full⟩
+
+/-- **a `step` does not raise for in-space actions in ANY `WInvWeak` world** with a full ledger: all three loops -/
+theorem stepPS_ok_weak {cfg : Cfg} {w0 : World} (p : PS) (acts : List (Aid × Act))
+    (hP : PSW cfg w0 p) (hS : ∀ x ∈ acts, ItemOK cfg.toEx w0 x) :
+    ∃ p', stepPS cfg p acts = .ok p' ∧ PSW cfg w0 p' := by
+  unfold stepPS
+  obtain ⟨p1, h1, hP1⟩ := foldE_ok (attack1 cfg) (PSW cfg w0) (ItemOK cfg.toEx w0)
+    (fun p x hP hx => attack1_ok_weak p x hP hx) acts p hP hS
+  simp only [h1]
+  obtain ⟨p2, h2, hP2⟩ := foldE_ok (move1 cfg) (PSW cfg w0) (ItemOK cfg.toEx w0)
+    (fun p x hP hx => move1_ok p x hP hx.lt hx.learning) acts p1 hP1 hS
+  simp only [h2]
+  exact foldE_ok (entropy1 cfg) (PSW cfg w0) (ItemOK cfg.toEx w0)
+    (fun p x hP hx => entropy1_ok p x hP hx.lt hx.learning) acts p2 hP2 hS
+
+/-- the judge's Boolean gives the hypotheses, seen from the world itself -/
+theorem items_of_stepMustNotRaise {cfg : Cfg} {w : World} {r : Ledger} {acts : List (Aid × Act)}
+    (h : stepMustNotRaise cfg w r acts = true) :
+    PSW cfg w ⟨w, r, []⟩ ∧ ∀ x ∈ acts, ItemOK cfg.toEx w x := by
+  simp only [stepMustNotRaise, Bool.and_eq_true, List.all_eq_true] at h
+  obtain ⟨⟨⟨⟨hW, hin⟩, _⟩, hlearn⟩, hfull⟩ := h
+  refine ⟨⟨hW, SFrame.refl w, fun a ha hl => ?_⟩, ?_⟩
+  · simp only [ledgerFullb, List.all_eq_true, List.mem_filter, List.mem_range] at hfull
+    exact hfull a ⟨ha, hl⟩
+  intro x hx
+  have hi := hin x hx
+  simp only [actInSpace, Bool.and_eq_true, decide_eq_true_eq, Bool.or_eq_true, Bool.not_eq_true'] at hi
+  obtain ⟨⟨hlt, hmv⟩, hat⟩ := hi
+  refine ⟨hlt, hlearn x hx, hmv, fun _ hatt => ?_⟩
+  rcases hat with hat | hat
+  · rw [hatt] at hat; cases hat
+  · exact hat
 
 end RT
 end Abmarl
